@@ -62,7 +62,10 @@ def ValueIsJoin {σ : Type} [DecidableEq Str] (Mc : Machine M σ) (T : MemberTyp
     | .error _ => true
     | .ok (s', _) => decide (Mc.value s' = sepJoin sep ((Mc.members s').map T.text)) && ValueIsJoin Mc T sep s' rest
 
-/-- **joined_value_history** — for ANY member type, separator, prune setting, start state and
+/-- **joined_value_history** — BY CONSTRUCTION of `value` (the machine `code` has no state but the members and
+    recomputes the join on every read, so this holds for ANY step function; what it contributes is that the model
+    says so and the correspondence compares it with the code; see `joined_value_history_cached` for a statement in
+    which the operations matter).  For ANY member type, separator, prune setting, start state and
     history of whole-element sets (any pieces), non-iterable sets, member `set()`, `append`, `del`
     and arbitrary changes of a member behind the element's back: after every completed step the
     value read from the element is the separator-join of the texts its members have at that
@@ -90,6 +93,60 @@ theorem storedValue_fails :
   have := h ([], []) [.setPieces [.str ['a'], .str ['b']], .member 0 (.str ['z'])]
   revert this
   decide
+
+/-! ### a theorem in which the set of operations matters (n3)
+
+`joined_value_history` above holds BY CONSTRUCTION of `value` (the code's `.value` is the join of the current
+members, whatever the step function does).  For a machine that caches, the statement depends on which
+operations invalidate: -/
+
+/-- the cache, when present, is the join of the current members -/
+def Coh (T : MemberType M) (sep : Str) (s : List M × Option Str) : Prop :=
+  s.2 = none ∨ s.2 = some (value T sep s.1)
+
+/-- **joined_value_history_cached** — a JoinedString that stores the value of its last `set()` and invalidates
+    on member `set()` / `append` / `del` reads the separator-join of its members' current texts after every step
+    of every history WITHOUT changes behind its back (`NoPoke`), from every coherent start. -/
+theorem joined_value_history_cached (T : MemberType M) (sep : Str) (prune : Bool) (s : List M × Option Str)
+    (hs : Coh T sep s) (ops : List (Op M)) (hops : NoPoke ops = true) :
+    ValueIsJoin (cached T sep prune) T sep s ops = true := by
+  induction ops generalizing s with
+  | nil => rfl
+  | cons op rest ih =>
+    simp only [ValueIsJoin]
+    cases h : (cached T sep prune).step s op with
+    | error e => rfl
+    | ok res =>
+      obtain ⟨s', r⟩ := res
+      have hrest : NoPoke rest = true := by cases op <;> simp_all [NoPoke]
+      have hcoh : Coh T sep s' := by
+        simp only [cached] at h
+        cases hst : step T prune s.1 op with
+        | error e => simp [hst] at h
+        | ok q =>
+          obtain ⟨ms, r'⟩ := q
+          cases op <;> simp_all [NoPoke, Coh] <;> (obtain ⟨rfl, _⟩ := h; simp)
+      simp only [Bool.and_eq_true, decide_eq_true_eq]
+      refine ⟨?_, ih s' hcoh hrest⟩
+      have hj := (joined_value_generic T sep s'.1).1
+      rcases hcoh with hc | hc <;> simp [cached, hc, hj]
+
+/-- **cached_poke_fails** — … and NOT after one change behind its back: `el.set('a,b')`, then the first member's
+    text changed without going through the element, still reads `'a,b'`.  (`storedValue_fails` is the same
+    failure for the machine that never invalidates, already on a member `set()`.) -/
+theorem cached_poke_fails :
+    ¬ ∀ (s : List SState × Option Str) (ops : List (Op SState)),
+        ValueIsJoin (cached (scalarMember plainEnv (.string true)) [','] true) (scalarMember plainEnv (.string true)) [','] s ops = true := by
+  intro h
+  have := h ([], none) [.setPieces [.str ['a'], .str ['b']], .poke 0 ⟨.str ['z'], .str ['z'], ['z']⟩]
+  revert this
+  decide
+
+/-- non-vacuity: a history with whole sets, a member set, an append and a del, no poke: the cached machine
+    agrees with the join throughout (and its cache is actually used after the `set`) -/
+example : ValueIsJoin (cached (scalarMember plainEnv (.string true)) [','] true) (scalarMember plainEnv (.string true)) [',']
+    ([], none) [.setPieces [.str ['a'], .str ['b']], .member 0 (.str ['z']), .append (.str ['c']), .delete 1,
+                .setPieces [.str ['q']]] = true := by decide
 
 /-- what the loop keeps under prune_empty has a non-empty text — for any member type -/
 theorem setLoop_noEmpty (T : MemberType M) (vs : List Native) (acc : List M) (succ : List Bool)
